@@ -830,7 +830,15 @@ func seqsOfLen(n int) []univ.M {
 	}
 	ascii := "abcdefghijkl"[:n]
 	mb := []rune("aé€b𝄞cßdÉe1f")
-	return []univ.M{univ.Ints(vals...), univ.Array(vals...), univ.PArray(vals...), univ.Strs(ss...), univ.Str(ascii), univ.Str(string(mb[:n]))}
+	anys := make([]univ.M, n) // the same numbers and letters as an []any (what decoded JSON looks like)
+	for i := range anys {
+		if i%2 == 0 {
+			anys[i] = univ.Int(i + 1)
+		} else {
+			anys[i] = univ.Str(string(rune('a' + i)))
+		}
+	}
+	return []univ.M{univ.Ints(vals...), univ.Array(vals...), univ.PArray(vals...), univ.Strs(ss...), univ.Slice(anys...), univ.Str(ascii), univ.Str(string(mb[:n]))}
 }
 
 func run(r *eng.Runner) {
